@@ -142,6 +142,9 @@ def run(sid, checks):
             viol = [l for l in out.splitlines() if l.startswith("VIOLATION")]
             detail = [l for l in out.splitlines() if l.startswith("  invariant=")]
             results[c] = {"exit": rc, "violations": len(viol), "first": (detail[0][:300] if detail else ""), "wall_s": round(time.time() - t0, 1)}
+            if rc not in (0, 1):
+                results[c]["output_tail"] = out[-1500:]
+                print(out[-1500:])
             print(f"[{sid}] check {c}: exit={rc} violations={len(viol)} {detail[0][:200] if detail else ''}")
             # keep one replay file as a sample
             if viol:
